@@ -1,3 +1,3 @@
-Require Import ModModel.
+Require Import ModModel ModAnti.
 Require Extraction. Require Import ExtrOcamlBasic.
-Extraction "mod_model.ml" ModModel.run ModModel.monitor.
+Extraction "mod_model.ml" ModModel.run ModModel.monitor ModAnti.run2.
